@@ -1063,6 +1063,22 @@ func biasConfig(r *Rng, c Config, fam string) Config {
 	return c
 }
 
+// gate herd: k documents of one family, all generated behind the same gate of that family's
+// generator (a sub-family that an ordinary document of the family reaches once in 2..6 draws),
+// so that code only that sub-family reaches is entered by every worker of the run.
+var familyGates = []struct{ fam, gate string }{{"link", "emails"}, {"link", "schemes"}, {"html", "multi-line-tags"}, {"entity", "entity-spread"}, {"attr", "attr-escapes"}, {"footnote", "many-footnotes"}, {"list", "list-shapes"}}
+
+func genGateHerd(r *Rng, k int) ([][]byte, string) {
+	g := pick(r, familyGates)
+	forceGate = g.gate
+	defer func() { forceGate = "" }()
+	out := make([][]byte, k)
+	for i := range out {
+		out[i] = genFamily(r, g.fam)
+	}
+	return out, g.fam
+}
+
 func genHerd(r *Rng, c *Corpus, k int) ([][]byte, string) {
 	fam := pick(r, herdFamilies)
 	if r.Chance(1, 4) {
